@@ -54,8 +54,10 @@ template <class Functor> inline void RangeFields(util::StringPiece str, const st
   unsigned int index = 0;
   for (const FieldRange f : indices) {
     for (; index < f.begin; ++index) {
-      begin = std::find(begin, end, delim) + 1;
-      if (begin >= end) return;
+      const char *found = std::find(begin, end, delim);
+      // The line has fewer fields than requested.
+      if (found == end) return;
+      begin = found + 1;
     }
     if (f.end == FieldRange::kInfiniteEnd) {
       callback(util::StringPiece(begin, end - begin));
@@ -64,11 +66,12 @@ template <class Functor> inline void RangeFields(util::StringPiece str, const st
     const char *old_begin = begin;
     for (; index < f.end; ++index) {
       const char *found = std::find(begin, end, delim);
-      begin = found + 1;
-      if (begin >= end) {
+      if (found == end) {
+        // The line ends inside the range.
         callback(util::StringPiece(old_begin, end - old_begin));
         return;
       }
+      begin = found + 1;
     }
     callback(util::StringPiece(old_begin, begin - old_begin - 1));
   }
